@@ -1,5 +1,5 @@
 (* Chk_C20.v — case type and checker for C20 (strongly connected components). *)
-From ZT Require Import Base Digraph.
+From ZT Require Import Base Digraph DigraphFast.
 
 Record case := {
   ops : list op;                         (* construction history (after DiGraph()) *)
@@ -39,8 +39,8 @@ Definition check (c : case) : nat :=
     (* the statement, evaluated on the implementation's components: against the graph the implementation reports AND against
        the graph that the construction history describes (what the caller's collections held at the time of each call) *)
     + bit (negb (match r_def c, r_triv c with
-                 | Some d, Some t => c20_ok (impl_graph c) false d && c20_ok (impl_graph c) true t
-                                     && c20_ok g false d && c20_ok g true t
+                 | Some d, Some t => c20_ok_fast (impl_graph c) false d && c20_ok_fast (impl_graph c) true t
+                                     && c20_ok_fast g false d && c20_ok_fast g true t
                  | _, _ => false end)) 2
   end.
 
@@ -51,5 +51,5 @@ Definition check_use (c : case) : nat :=
   match apply_ops empty_graph (ops c) with
   | None => 1
   | Some g => bit (negb (agree_run g false (r_def c))) 1
-              + bit (negb (match r_def c with Some d => c20_ok g false d | None => false end)) 2
+              + bit (negb (match r_def c with Some d => c20_ok_fast g false d | None => false end)) 2
   end.
